@@ -99,6 +99,10 @@ def corpus():
     cs.append(mk_trend(es, ns, d, [25.0] * 9, 1, "corpus-trend-uniform-weights"))
     cs.append(mk_trend(es, ns, d, wts[0], 0, "corpus-trend-degree0-weights"))
     cs.append(_spline_case("spline", es, ns, [d], wts[:1], None, [[x + 1 / 128 for x in fe9], fn9], 0.5, 0.0))     # as many separate forces as data, weighted
+    # non-uniform weights that are all tiny in absolute value (sigma ~ 1e5): still non-uniform
+    cs.append(mk_trend(es, ns, d, [x * 1e-10 for x in wts[0]], 2, "corpus-trend-tiny-weights"))
+    cs.append(_spline_case("spline", es, ns, [d], [[x * 1e-12 for x in wts[0]]], None, [[x + 1 / 128 for x in fe], fn_], 0.5, 0.0))
+    cs.append(_spline_case("vector", es, ns, [d, d[::-1]], [[x * 1e-9 for x in wts[0]], [x * 1e-9 for x in wts[1]]], None, [[x + 1 / 128 for x in fe], fn_], 0.5, 4.0))
     # a datum switched off by a vanishing weight (its value is a fill value of any size): the fit is the fit without it
     for tiny, fill in ((1e-40, 1e15), (1e-20, -1e9), (0.0, 1e12)):
         dv, wv = list(d), list(wts[0])
@@ -141,6 +145,9 @@ def generate(rng, tier):
                 k_ = rng.randrange(len(es))
                 w[k_] = rng.choice([0.0, 1e-300, 1e-40, 1e-20, 1e-13])
                 d[k_] = rng.choice([-1.0, 1.0]) * 10.0 ** rng.randint(6, 15)
+            if w is not None and rng.random() < 0.3:      # weights in other units: 1/sigma^2 with sigma ~ 1e4..1e6, or huge
+                f_ = 10.0 ** rng.choice([-12, -9, -6, 6])
+                w = [x * f_ for x in w]
             cs.append(mk_trend(es, ns, d, w, deg, f"trend-{deg}"))
         else:
             npts = rng.randint(3, 10 if tier == "quick" else 16)
@@ -170,6 +177,9 @@ def generate(rng, tier):
                     k_ = rng.randrange(len(es))
                     w[c_][k_] = rng.choice([0.0, 1e-300, 1e-40, 1e-20, 1e-13])
                     data[c_][k_] = rng.choice([-1.0, 1.0]) * 10.0 ** rng.randint(6, 15)
+            if w is not None and damping is None and rng.random() < 0.3:      # (undamped: a common factor of the weights changes nothing)
+                f_ = 10.0 ** rng.choice([-12, -9, -6, 6])
+                w = [[x * f_ for x in comp] for comp in w]
             cs.append(_spline_case(kind, es, ns, data, w, damping, force, rng.choice([-1.0, -0.25, 0.0, 0.5, 1.0]),
                                    rng.choice([0.0, 1.0, 4.0]) if kind == "spline" else rng.choice([0.5, 4.0, 16.0])))
     return cs
@@ -337,7 +347,8 @@ def oracle(case, io):
         c2 = dict(case)
         a2 = list(case["args"])
         widx = 3
-        a2[widx] = [[x * 4.0 for x in comp] for comp in a2[widx]] if case["fn"] != "trend" else [x * 4.0 for x in a2[widx]]
+        fac = [4.0, 1e-9, 1e7][len(case["op"]) % 3]
+        a2[widx] = [[x * fac for x in comp] for comp in a2[widx]] if case["fn"] != "trend" else [x * fac for x in a2[widx]]
         c2["args"] = a2
         r2 = C.call(_fit, c2)
         if C.is_err(r2):
